@@ -69,8 +69,24 @@ desc: io_open_dest_real with every system call free to fail: a destination FILE 
 assume: open/unlink/fstat/fcntl/lseek/close/free/xstrdup/dirname/suffix_get_dest_name are stubs with nondeterministic results recorded in the ghost event log
 */
 
+/*@obligation
+id: C19.open_src
+props: C19 C17
+entry: h_open_src
+flags: xz
+unwind: 26
+nondet_volatile: user_abort
+fn: io_open_src_real io_wait
+sentinels: 8
+expect: 20
+replay: none
+desc: io_open_src_real for every file kind/mode/link count/flag combination and every failing system call: the source is opened exactly once, read-only (never O_CREAT/O_TRUNC/O_WRONLY/O_RDWR), with O_NOCTTY|O_NONBLOCK, and with O_NOFOLLOW exactly when none of --stdout/--force/--keep is given; it is ACCEPTED (false returned) only if open and fstat succeeded, it is not a directory, it is a regular file unless writing to stdout, and -- when replacing files without --force/--keep -- it has no setuid/setgid/sticky bit and at most one hard link; pair->src_st is what fstat reported (the identity/mode later used for unlink and attribute copying); conversely an ordinary regular file (no special bits, one link) is always accepted; a refused symbolic link (ELOOP + lstat says link) is a warning, other open failures are errors; every refusal after a successful open closes the descriptor; standard input is never opened, closed or refused
+assume: open/fstat/lstat/poll/posix_fadvise/fcntl/close are stubs with nondeterministic results; O_NOFOLLOW semantics of the kernel are trusted
+*/
+
 #include "verif.h"
 /* the real translation unit first (it includes private.h, which has no include guard) */
+const char stdin_filename[] = "(stdin)"; /* complete type before args.h declares it (CBMC compares addresses of incomplete arrays unequal) */
 #include "file_io.c"
 #include <stdarg.h>
 #include <libgen.h>
@@ -95,6 +111,9 @@ static struct in IN VERIF_IN_INIT;
 
 struct in2 { uint8_t r_open_dir, r_open_dest, r_fstat, dest_isreg, r_fcntl_get, r_fcntl_set, name_null, to_stdout, src_stdin, try_sparse_opt, mode_decompress, r_unlink_enoent, r_lseek_end; int32_t stdout_flags; int64_t cur_pos, st_size; };
 static struct in2 IN2;
+struct in3 { uint8_t to_stdout, force, keep, src_stdin, r_open, open_eloop, r_lstat, lstat_islnk, r_fstat, r_poll, poll_hup, list_mode; uint32_t mode, nlink; };
+static struct in3 IN3;
+static bool g_open_src_mode;  /* open/fstat/lstat describe the SOURCE file in the io_open_src_real obligation */
 static bool g_open_dest_mode; /* lseek on stdout reports positions only in the io_open_dest_real obligation */
 static char SRC_NAME[] = "src", DEST_NAME_BUF[] = "dest";
 #define FD_SRC 5
@@ -125,6 +144,7 @@ static int stat_common(const char *name, struct stat *st)
 {
 	log_ev(EV_STAT, name == SRC_NAME, 0);
 	memset(st, 0, sizeof(*st));
+	if (g_open_src_mode) { if (IN3.r_lstat) return -1; st->st_mode = IN3.lstat_islnk ? S_IFLNK : S_IFREG; return 0; }
 	const bool is_src = name == SRC_NAME;
 	if (is_src ? IN.r_stat_src : IN.r_stat_dest) return -1;
 	st->st_dev = 1; st->st_ino = (is_src ? (IN.same_src ? 100 : 101) : (IN.same_dest ? 200 : 201));
@@ -144,11 +164,16 @@ int open(const char *path, int flags, ...)
 	const unsigned k = GOP.opens++;
 	if (k < 2) { GOP.open_flags[k] = flags; GOP.open_path[k] = path; GOP.open_mode[k] = 0; if (flags & O_CREAT) { va_list ap; va_start(ap, flags); GOP.open_mode[k] = va_arg(ap, mode_t); va_end(ap); } }
 	log_ev(100, flags, 0);
+	if (g_open_src_mode) { if (IN3.r_open) { errno = IN3.open_eloop ? ELOOP : EACCES; return -1; } return FD_SRC; }
 	const bool is_dir = (flags & O_DIRECTORY) != 0;
 	if (is_dir ? IN2.r_open_dir : IN2.r_open_dest) { errno = EACCES; return -1; }
 	return is_dir ? FD_DIR : FD_DEST;
 }
-int fstat(int fd, struct stat *st) { log_ev(EV_STAT, fd, 1); memset(st, 0, sizeof(*st)); if (IN2.r_fstat) return -1; st->st_mode = IN2.dest_isreg ? S_IFREG : S_IFIFO; st->st_size = IN2.st_size; st->st_dev = 1; st->st_ino = 200; return 0; }
+int poll(struct pollfd *fds, nfds_t n, int timeout) { (void)n; (void)timeout; if (IN3.r_poll) { errno = EIO; return -1; } fds[0].revents = IN3.poll_hup ? POLLHUP : POLLIN; fds[1].revents = 0; return 1; }
+int posix_fadvise(int fd, off_t a, off_t b, int advice) { (void)fd; (void)a; (void)b; (void)advice; return 0; }
+int fstat(int fd, struct stat *st) { log_ev(EV_STAT, fd, 1); memset(st, 0, sizeof(*st));
+	if (g_open_src_mode) { if (IN3.r_fstat) return -1; st->st_mode = IN3.mode; st->st_nlink = IN3.nlink; st->st_dev = 1; st->st_ino = 100; return 0; }
+	if (IN2.r_fstat) return -1; st->st_mode = IN2.dest_isreg ? S_IFREG : S_IFIFO; st->st_size = IN2.st_size; st->st_dev = 1; st->st_ino = 200; return 0; }
 int fcntl(int fd, int cmd, ...)
 {
 	++GOP.fcntls; log_ev(EV_FCNTL, fd, cmd);
@@ -372,4 +397,73 @@ void h_open_dest(void)
 	ASSERT(dest_opened && P.dest_fd == FD_DEST, "success: destination opened");
 	if (P.dest_try_sparse) { ASSERT(IN2.mode_decompress && IN2.try_sparse_opt && !IN2.r_fstat, "sparse mode only when decompressing with sparse files allowed"); REACH(od_sparse); }
 	REACH(od_ok);
+}
+
+
+/* ---------------- io_open_src_real ---------------- */
+
+void h_open_src(void)
+{
+	HAVOC(IN, struct in);
+	HAVOC(IN2, struct in2);
+	HAVOC(IN3, struct in3);
+	ASSUME(wf_in());
+	ASSUME(IN3.to_stdout <= 1 && IN3.force <= 1 && IN3.keep <= 1 && IN3.src_stdin <= 1 && IN3.r_open <= 1 && IN3.open_eloop <= 1 && IN3.r_lstat <= 1
+		&& IN3.lstat_islnk <= 1 && IN3.r_fstat <= 1 && IN3.r_poll <= 1 && IN3.poll_hup <= 1 && IN3.list_mode <= 1);
+	ASSUME(IN2.r_fcntl_get <= 1 && IN2.r_fcntl_set <= 1 && IN2.stdout_flags >= 0);
+	setup_pair(); memset(&GOP, 0, sizeof(GOP)); g_open_src_mode = true;
+
+	P.src_name = IN3.src_stdin ? stdin_filename : SRC_NAME;
+	P.src_fd = -1; P.dest_fd = -1; P.dir_fd = -1; memset(&P.src_st, 0, sizeof(P.src_st));
+	opt_stdout = IN3.to_stdout; opt_force = IN3.force; opt_keep_original = IN3.keep;
+	opt_mode = IN3.list_mode ? MODE_LIST : MODE_COMPRESS;
+	user_abort_pipe[0] = 8; user_abort_pipe[1] = 9;
+	const bool err = io_open_src_real(&P);
+	const int i_close = first_ev(EV_CLOSE, FD_SRC);
+	if (IN3.src_stdin) {
+		ASSERT(GOP.opens == 0 && first_ev(EV_CLOSE, -99) < 0, "standard input: nothing opened or closed");
+		if (!err) ASSERT(P.src_fd == STDIN_FILENO, "source is fd 0");
+		ASSERT(err == (IN2.r_fcntl_get != 0), "standard input is refused only if its flags cannot be read");
+		REACH_IF(!err, os_stdin);
+		return;
+	}
+	const bool replacing_strict = !IN3.to_stdout && !IN3.force && !IN3.keep;
+	ASSERT(GOP.opens == 1 && GOP.open_path[0] == SRC_NAME, "the source is opened exactly once, by its name");
+	const int fl = GOP.open_flags[0];
+	ASSERT((fl & O_ACCMODE) == O_RDONLY && (fl & (O_CREAT | O_TRUNC | O_APPEND | O_EXCL)) == 0, "source opened read-only, never created or truncated");
+	ASSERT((fl & O_NOCTTY) && (fl & O_NONBLOCK), "source opened with O_NOCTTY|O_NONBLOCK");
+	ASSERT(((fl & O_NOFOLLOW) != 0) == !(IN3.to_stdout || IN3.force || IN3.keep), "symbolic links are followed only with --stdout, --force or --keep");
+	const uint32_t m = IN3.mode;
+	const bool special_bits = (m & (S_ISUID | S_ISGID | S_ISVTX)) != 0;
+	if (!err) {
+		ASSERT(!IN3.r_open && !IN3.r_fstat, "accepted only if open and fstat succeeded");
+		ASSERT(P.src_fd == FD_SRC, "descriptor stored");
+		ASSERT(!S_ISDIR(m), "a directory is never accepted");
+		if (!IN3.to_stdout) ASSERT(S_ISREG(m), "without --stdout only regular files are processed (no file is written from a non-regular source)");
+		if (replacing_strict) ASSERT(!special_bits && IN3.nlink <= 1, "replacing without --force/--keep: no setuid/setgid/sticky file, no file with several hard links");
+		if (!S_ISREG(m)) { ASSERT(!IN3.r_poll, "non-regular source: waited for readability"); REACH(os_nonregular_stdout); }
+		ASSERT(P.src_st.st_mode == m && P.src_st.st_nlink == IN3.nlink && P.src_st.st_ino == 100 && P.src_st.st_dev == 1, "src_st is what fstat reported for the opened descriptor");
+		ASSERT(i_close < 0, "an accepted source stays open");
+		ASSERT(GL.errors == 0 && GL.warnings == 0, "accepting is silent");
+		REACH(os_accepted);
+		REACH_IF(replacing_strict, os_accepted_strict);
+	} else {
+		if (IN3.r_open) {
+			ASSERT(i_close < 0, "nothing to close after a failed open");
+			const bool symlink = IN3.open_eloop && !(IN3.to_stdout || IN3.force || IN3.keep) && !IN3.r_lstat && IN3.lstat_islnk;
+			ASSERT(symlink ? (GL.warnings == 1 && GL.errors == 0) : (GL.errors == 1 && GL.warnings == 0), "a skipped symbolic link is a warning, any other open failure an error");
+			REACH_IF(symlink, os_symlink_skipped);
+		} else {
+			ASSERT(i_close >= 0, "every refusal after a successful open closes the descriptor");
+			/* a user signal while waiting for a FIFO/device to become readable ends the wait silently */
+			const bool waited = !IN3.r_fstat && !S_ISDIR(m) && !S_ISREG(m) && IN3.to_stdout;
+			ASSERT(waited ? GL.errors + GL.warnings <= 1 : GL.errors + GL.warnings == 1, "exactly one diagnostic per refused file");
+			REACH(os_refused_closed);
+		}
+	}
+	/* completeness: ordinary files are never refused */
+	if (!IN3.r_open && !IN3.r_fstat && S_ISREG(m) && !special_bits && IN3.nlink <= 1) ASSERT(!err, "an ordinary regular file is always accepted");
+	if (!IN3.r_open && !IN3.r_fstat && S_ISREG(m) && !replacing_strict) ASSERT(!err, "with --stdout, --force or --keep any regular file is accepted");
+	REACH_IF(err && !IN3.r_open && !IN3.r_fstat && S_ISREG(m) && IN3.nlink > 1, os_hardlink_refused);
+	REACH_IF(err && !IN3.r_open && !IN3.r_fstat && S_ISREG(m) && special_bits && IN3.nlink <= 1, os_setuid_refused);
 }
